@@ -50,7 +50,7 @@ func c05A5(e *c05env) {
 	c := e.c
 	reg := c.Fn("p2p.RegisterHandler")
 	wrl := c.Fn("p2p.WithReadLimit")
-	handle := c.Fn(c05Q + ".Consensus.handle")
+	handle := c.Fn(c05N("Consensus.handle"))
 	def := constOf(c, "p2p", "maxMsgSize")
 	n := 0
 	for _, fn := range an.PkgFuncs(c.SSAPkg(c05Q)) {
@@ -263,10 +263,11 @@ func c05A6(e *c05env) {
 	if gp == nil {
 		c.Bail("NewConsensus: no DutyGaterFunc parameter")
 	}
+	_, _, fGater, _ := c05ConsFields(c)
 	stored, pos := false, nc.Pos()
 	for _, in := range an.Instrs(nc, false) {
 		if st, ok := in.(*ssa.Store); ok {
-			if fa, ok := st.Addr.(*ssa.FieldAddr); ok && an.FieldKey(fa.X.Type(), fa.Field) == c05Q+".Consensus.gaterFunc" {
+			if fa, ok := st.Addr.(*ssa.FieldAddr); ok && an.FieldKey(fa.X.Type(), fa.Field) == c05Q+".Consensus."+fGater {
 				stored, pos = an.Unwrap(st.Val) == ssa.Value(gp), st.Pos()
 			}
 		}
